@@ -206,8 +206,18 @@ impl Expr {
             return true;
         }
 
-        match expr.left {
+        let left = match expr.left {
             Some(ref left) => Self::contains_numeric_field(left),
+            None => false,
+        };
+
+        if left {
+            return true;
+        }
+
+        // `1 + size` is as numeric as `size + 1`
+        match expr.right {
+            Some(ref right) => Self::contains_numeric_field(right),
             None => false,
         }
     }
